@@ -28,10 +28,21 @@ RULE = ('every (class, family size) with n <= bound (plus the thin lattices with
         'open-boundary classes accept) whose half-weight table sum_{w<=ceil((d-1)/2)} C(n,w)[*3^w] is '
         'under the cap; one case per (class, size); non-trivial = cases with d >= 2 (a non-empty search space); '
         'evaluations = table entries enumerated; every deformed version of a covered code must report the same d; '
-        'per-class sessions repeat the search for several sizes in one process')
+        'per-class sessions repeat the search for several sizes in one process; part large: a few sizes far beyond '
+        'the cap whose listed logicals are heavier than 255 qubits, search-free clauses only (d >= 1, d not above '
+        'the lightest listed logical; d below it is counted as undecided)')
 ASSUMPTIONS = ['listed logical operators are valid (C01)', 'GF(2) reference mc/gf2.py']
-BOUNDS = {'quick': {'max_n': 200, 'l_max_2d': 7, 'l_max_3d': 6, 'cap': 400000, 'l_thin': 4},
-          'thorough': {'max_n': 400, 'l_max_2d': 9, 'l_max_3d': 6, 'cap': 3000000, 'l_thin': 6}}
+BOUNDS = {'quick': {'max_n': 200, 'l_max_2d': 7, 'l_max_3d': 6, 'cap': 400000, 'l_thin': 4,
+                    'large': [('Toric2DCode', [16, 17]), ('Toric2DCode', [2, 300]), ('Planar2DCode', [2, 260]), ('RotatedPlanar2DCode', [2, 257]),
+                    ('Toric3DCode', [4, 16, 16]), ('Toric3DCode', [5, 13, 20]), ('Planar3DCode', [6, 16, 16]),
+                    ('Planar3DCode', [2, 2, 130]), ('RotatedPlanar3DCode', [2, 2, 140]), ('XCubeCode', [2, 2, 130]),
+                    ('RhombicToricCode', [2, 2, 260]), ('HollowPlanar3DCode', [3, 16, 17])]},
+          'thorough': {'max_n': 400, 'l_max_2d': 9, 'l_max_3d': 6, 'cap': 3000000, 'l_thin': 6,
+                       'large': [('Toric2DCode', [16, 17]), ('Toric2DCode', [2, 300]), ('Planar2DCode', [2, 260]), ('RotatedPlanar2DCode', [2, 257]),
+                       ('Toric3DCode', [4, 16, 16]), ('Toric3DCode', [5, 13, 20]), ('Planar3DCode', [6, 16, 16]),
+                       ('Planar3DCode', [2, 2, 130]), ('RotatedPlanar3DCode', [2, 2, 140]), ('XCubeCode', [2, 2, 130]),
+                       ('RhombicToricCode', [2, 2, 260]), ('HollowPlanar3DCode', [3, 16, 17])] + [('Toric3DCode', [16, 16, 16]), ('Toric3DCode', [8, 32, 32]),
+                                      ('Planar3DCode', [3, 20, 26]), ('Toric2DCode', [512, 3])]}}
 
 
 def cases(tier, seed):
@@ -53,7 +64,36 @@ def cases(tier, seed):
         if len(lst) >= 2 and max(size) <= 3:
             seq = [dict(c, cap=min(b['cap'], 60000)) for c in lst]
             out.append({'part': 'session', 'cfgs': seq + seq[::-1]})
+    # sizes far beyond the search cap, chosen so that listed logicals get heavier than 255 qubits: only the
+    # clauses that need no search are decided there (d >= 1; d not above the lightest listed logical)
+    for cls, size in b['large']:
+        out.append({'part': 'large', 'cls': cls, 'size': size, 'deformation': None})
     return out
+
+
+def eval_large(cfg):
+    res = {'evals': 1, 'nontrivial': 1, 'violations': [], 'outcomes': [], 'samples': [], 'extra': {}}
+    code = F.build(cfg)
+    n = code.n
+    d = int(code.d)
+    L = gf2.matrix_rows(code.logicals_x) + gf2.matrix_rows(code.logicals_z)
+    ws = [gf2.weight(l, n) for l in L]
+    wmin = min(ws)
+    key = {'part': 'large', 'cls': cfg['cls'], 'size': list(cfg['size'])}
+    if d < 1:
+        res['violations'].append({'key': dict(key, kind='d-not-positive'),
+                                  'detail': {'d': d, 'listed_logical_weights': sorted(ws)[:6], 'n': n}})
+    elif d > wmin:
+        res['violations'].append({'key': dict(key, kind='reported-d-exceeds-weight-of-a-listed-logical'),
+                                  'detail': {'d': d, 'logical_weight': wmin}})
+    elif d < wmin:
+        # a lighter, unlisted logical may exist in principle; out of reach of the search at this size
+        res['extra']['large_reported_d_below_listed_logicals_undecided'] = 1
+    res['extra']['large_cases'] = 1
+    res['outcomes'] = ['large|%s|d=%d|wmin=%d|wmax=%d' % (cfg['cls'], d, wmin, max(ws))]
+    res['samples'].append({'config': F.cfg_label(cfg), 'n': n, 'd': d, 'lightest_listed': wmin, 'heaviest_listed': max(ws),
+                           'covered': 'search-free clauses only'})
+    return res
 
 
 def table_size(n, A, per_qubit):
@@ -102,6 +142,8 @@ def search(cols_list, n, m, A, d):
 def eval_case(cfg):
     if cfg.get('part') == 'session':
         return session.run(cfg['cfgs'], eval_case, F.cfg_label)
+    if cfg.get('part') == 'large':
+        return eval_large(cfg)
     res = {'evals': 0, 'nontrivial': 0, 'violations': [], 'outcomes': [], 'samples': [], 'extra': {}}
     if F.known_invalid(cfg):
         res['skipped'] = 1
